@@ -169,7 +169,7 @@ pub struct WorkerResult {
 
 /// Spawn one worker per (spec, shard); returns spec name -> merged result.
 pub fn run_workers(check: &str, tier: Tier, seed: u64, specs: &[WorkerSpec], shards: usize, extra_args: &[String]) -> BTreeMap<String, WorkerResult> {
-    let exe = std::env::current_exe().expect("current exe");
+    let exe = crate::eng::self_exe();
     let base = std::env::var("QE_VERIF_SCRATCH").unwrap_or_else(|_| "/var/tmp".into());
     let mut children = Vec::new();
     for spec in specs {
